@@ -471,3 +471,61 @@ def gen_request(r, L, fc, valid=True, unknown_fcs=(9, 10, 13, 14, 18, 19, 25, 99
 
 
 DATA_FCS = [1, 2, 3, 4, 5, 6, 15, 16, 22, 23]
+
+
+# ----------------------------------------------------------------------------- replay / shrink
+
+def norm_layout(L):
+    """layout as loaded back from JSON -> the tuple form used by the generators"""
+    L = dict(L)
+    L["blocks"] = [("sp", [tuple(p) for p in d[1]]) if d[0] == "sp" else tuple(d) for d in L["blocks"]]
+    return L
+
+
+def rebuild(L, wires, plan=(), final_dump=True):
+    h = History(L)
+    h.fctx.plan = list(plan)
+    for w in wires:
+        h.request(tuple(w))
+    if final_dump:
+        h.dump()
+    return h.case(plan=plan)
+
+
+def shrink_history(pid, desc):
+    """a smaller history that still fails the property oracle: the shortest failing prefix, then without
+    the earlier requests that are not needed (each candidate is re-run on the real code)"""
+    from lib import coqrun
+    if desc.get("plan") or "items" not in desc:
+        return None
+    L = norm_layout(desc["layout"])
+    wires = [it["wire"] for it in desc["items"] if "wire" in it]
+    if len(wires) <= 1:
+        return None
+
+    def failing(cands):
+        r = coqrun.eval_cases(pid + "_shrink", IMPORTS, CHK_HIST, [c.term for c in cands], shard=50)
+        return sorted(set(r["propfail"]))
+    cands = [rebuild(L, wires[:k]) for k in range(1, len(wires) + 1)]
+    f = failing(cands)
+    if not f:
+        return None
+    base = wires[:f[0] + 1]
+    best = cands[f[0]]
+    if len(base) > 1:
+        singles = [rebuild(L, base[:i] + base[i + 1:]) for i in range(len(base) - 1)]
+        drop = set(failing(singles))
+        keep = [w for i, w in enumerate(base) if i not in drop]
+        if len(keep) < len(base):
+            c = rebuild(L, keep)
+            if failing([c]):
+                best = c
+            elif drop:
+                i = min(drop)
+                best = singles[i]
+    d = dict(best.desc)
+    d["shrunk_from_requests"] = len(wires)
+    for k in ("defect", "fault_call", "fault_after_set"):
+        if k in desc:
+            d[k] = desc[k]
+    return d
